@@ -30,7 +30,7 @@ TOL = {"singles_gl": ("rel", 1e-6), "singles_simpson": ("rel", 1e-6), "counts": 
 DEFAULT_TOL = ("exact",)
 RULE = ("family counts: the probed D9 input, then seeded random phase-matched setups (11 crystals x 5 types x poling on(auto period, apodised or not)/"
         "off(auto angle) x collinear/non-collinear x waists 20-300 um x L 0.5-20 mm; phase-matched = built with the crate's auto "
-        "options and |dk_z| L/2 < pi at the centre, others skipped and counted); every fifth a poled counter-propagating setup (both orientations, collinear or tilted), every fifth a near-unity-heralding source (ppKTP 0.3-2 mm, pump 150-400 um, collection 25-50 um); pump-spectrum "
+        "options and |dk_z| L/2 < pi at the centre, others skipped and counted); every fifth a poled counter-propagating setup (both orientations, collinear or tilted), every fifth a setup with explicit, clearly different collection foci (one arm or both at +-(0.5..5) L; three quarters of them moderately focused, xi_i 0.25-0.55, idler waist <= signal waist, pump waist comparable), every fifth a near-unity-heralding source (ppKTP 0.3-2 mm, pump 150-400 um, collection 25-50 um); pump-spectrum "
         "threshold from {1e-2,1e-4,0.1,0.25}; per setup a grid of frequency pairs inside the "
         "support (pump direction: core and the wings thr <= alpha < sqrt(thr), just inside and beyond the threshold contour; x "
         "anti-diagonal through +-1.6 first zeros; pairs with vanishing singles are not skipped) under Gauss-Legendre-40 and Simpson-200, the rates and "
@@ -46,7 +46,7 @@ CHECKER_MODULES = ["Spdc.Real.Counts", "Spdc.Real.Singles"]
 
 def families(tier, seed):
     if tier == "quick":
-        return [("counts", seed, 150, []), ("counts", seed, 150, ["singles"]), ("counts", seed, 100, ["limit"]),
+        return [("counts", seed, 200, []), ("counts", seed, 150, ["singles"]), ("counts", seed, 100, ["limit"]),
                 ("counts", seed, 2000, ["eff"])]
     return [("counts", seed, 1500, []), ("counts", seed, 600, ["focus"]), ("counts", seed, 1500, ["singles"]),
             ("counts", seed, 1000, ["limit"]), ("counts", seed, 50000, ["eff"])]
